@@ -196,6 +196,12 @@ def check_obs(P, S, O):
     for f in ("weights", "values", "packed_items"):
         if not np.array_equal(O[f], S[f]):
             out.append(f"obs_{f}: observation {f} != state {f}")
+    # the mask is a documented function of the state the observation comes with ("items that are not packed and fit in the
+    # remaining budget"): recomputed from the state's own float32 numbers, so the comparison is exact
+    m = np.asarray(O["action_mask"]).astype(bool)
+    exp = (~np.asarray(S["packed_items"]).astype(bool)) & (np.asarray(S["weights"]) <= S["remaining_budget"])
+    if m.shape != exp.shape or not np.array_equal(m, exp):
+        out.append(f"obs_action_mask_from_state: mask differs from ~packed & (weights <= state.remaining_budget) at items {np.flatnonzero(m != exp)[:5].tolist() if m.shape == exp.shape else 'shape'}")
     return out
 
 
